@@ -156,6 +156,11 @@ def gen(tier, seed):
             for _ in range(6):
                 vs = [rng.choice(specs) for _ in range(rng.randint(1, 3))]
                 mods.append(emit(f'm{n:04d}', f'enum[{";".join(sid(x) for x in vs)}]/mut={int(with_mut)}', 'enum', vs, with_mut)); n += 1
+            # single-variant enums (an irrefutable-pattern shortcut is possible there): every spec with 2+ fields whose marker is not on field 0
+            for i, sp in enumerate(specs):
+                if i % 3 == (1 if with_mut else 0) or '.m0' in sid(sp) or sid(sp)[1] == '1':
+                    continue
+                mods.append(emit(f'm{n:04d}', f'enum[{sid(sp)}]/mut={int(with_mut)}/single variant', 'enum', [sp], with_mut)); n += 1
         else:
             for i, sp in enumerate(specs):
                 mods.append(emit(f'm{n:04d}', f'struct[{sid(sp)}]/mut={int(with_mut)}', 'struct', [sp], with_mut)); n += 1
